@@ -112,6 +112,7 @@ func main() {
 	genTypes(*repo, *out)
 	genRouting(*repo, *out)
 	genAddr(*repo, *out)
+	genAlias(*repo, *out)
 }
 
 // ---------------------------------------------------------------------------------------------
